@@ -295,9 +295,10 @@ enum Exclusion {
 /// tolerance, and fail with `C16/not-back-to-baseline:<gauge>:<name>`.
 fn known_shape(i: &Interaction) -> Option<(&'static str, Exclusion)> {
     match i {
-        // a session upgraded to a websocket pipe never gives back its backend connection in the
-        // backend gauges (Pipe::close has no counterpart of Router::connect's increments)
-        Interaction::WsUpgrade { .. } => Some(("ws-upgrade", Exclusion::Gauges(&["backend.connections", "backend.pool.size", "connections_per_backend@c0"]))),
+        // a session upgraded to a websocket pipe never gave back its backend connection in the
+        // backend gauges (Pipe::close had no counterpart of Router::connect's increments).
+        // Repaired in sozu: the tolerance is off unless VP_C16_EXCLUSIONS is set (exploring older trees)
+        Interaction::WsUpgrade { .. } if std::env::var_os("VP_C16_EXCLUSIONS").is_some() => Some(("ws-upgrade", Exclusion::Gauges(&["backend.connections", "backend.pool.size", "connections_per_backend@c0"]))),
         _ => None,
     }
 }
